@@ -80,8 +80,10 @@ def acceptable(codes, early, allow_running=False):
             continue
         if idx == len(L) - 1:
             return None          # ABOR answered last: nothing (left) to abort
-        if early:
-            return None          # ABOR was sent before the mark was received: it may be handled first
+        if early and len(rest) == 1 and rest[0][0] in "45":
+            return None          # the transfer was refused anyway; the two answers come from concurrent handlers
+        if early and allow_running and len(rest) == 1:
+            return None
     return f"unexpected reply sequence {L}"
 
 
@@ -118,6 +120,13 @@ def run_abort(case, chooser):
                         pass
             raw = bytes(s.ctl.p.total)[state["mark"]:]
             state["early"] = not any(line[:1] == b"1" for line in raw.split(b"\r\n") if line[:3].isdigit())
+            if case.get("giveup") and s.data is not None:
+                # the usual way of a client to abort: it drops its data connection (close, or reset as unread data is
+                # left) and then says ABOR
+                if case["giveup"] == "close":
+                    s.data.close()
+                else:
+                    s.data.reset()
             s.ctl.send(b"ABOR\r\n")
 
         def on_event(nev):
@@ -161,24 +170,31 @@ def run_abort(case, chooser):
         if s.closed():
             problems.append({"kind": "session-closed-by-abort", "codes": codes})
         why = acceptable(codes, state["early"], allow_running=case.get("noread", False))
+        if why and case.get("giveup"):
+            # the transfer may have failed on the lost data connection by itself: 1xx, one failure (or completion)
+            # reply, and ABOR's single 226 - in either order of the last two
+            L = list(codes)
+            if (len(L) == 3 and L[0][0] == "1" and sorted(x[0] for x in L[1:]) in (["2", "4"], ["2", "2"], ["2", "5"])
+                    and "226" in L[1:]):
+                why = None
         if why:
             problems.append({"kind": "abor-answer", "why": why, "codes": codes})
         # data connection closed by the server when a transfer had been started
         if any(c.startswith("1") for c in codes) and s.data is not None and not case.get("noread"):
             spare_t = state["spare"].t if state.get("spare") is not None else None     # open on purpose
-            mine = [t for t in w.net.all_transports if t.side == "server" and t.accepted and not t.closing
-                    and not t.closed and t.get_extra_info("sockname")[1] != 2121 and t.peer is not spare_t]
+            mine = [t for t in w.net.all_transports if t.side == "server" and t.accepted and t.held()
+                    and t.get_extra_info("sockname")[1] != 2121 and t.peer is not spare_t]
             if mine:
                 problems.append({"kind": "data-connection-open-after-abort", "codes": codes})
         # only a prefix delivered / stored
         snap = rig.snapshot()
         still_running = bool(codes) and codes[-1].startswith("1")     # ABOR overtook the verb: nothing was aborted
         if case.get("noread") and any(c.startswith("1") for c in codes) and s.data is not None and not still_running:
-            # the server must have *started* closing the data connection (it cannot finish while the peer's window
-            # is closed); the ABOR must be answered all the same
+            # the data connection is closed although the peer does not take what was written already; the ABOR is
+            # answered all the same
             spare_t = state["spare"].t if state.get("spare") is not None else None     # open on purpose
-            mine = [t for t in w.net.all_transports if t.side == "server" and t.accepted and not t.closing
-                    and not t.closed and t.get_extra_info("sockname")[1] != 2121 and t.peer is not spare_t]
+            mine = [t for t in w.net.all_transports if t.side == "server" and t.accepted and t.held()
+                    and t.get_extra_info("sockname")[1] != 2121 and t.peer is not spare_t]
             if mine:
                 problems.append({"kind": "data-connection-open-after-abort", "codes": codes})
         if case.get("rest"):
@@ -317,6 +333,18 @@ def build_items(tier):
                 case = {"verb": verb, "size": size, "k": k, "backend": "async", "followup": "again" if k % 2 else "pwd",
                         "data_conn": True}
                 items.append((case, 1, kinds))
+    # the client drops its data connection (close / reset) right before it says ABOR
+    for verb in ("RETR", "STOR", "LIST"):
+        for giveup in ("close", "reset"):
+            for backend in ("memory", "slow"):
+                size = 3 * B
+                probe = {"verb": verb, "size": size, "k": 10 ** 9, "backend": backend, "followup": "pwd", "data_conn": True,
+                         "probe": True}
+                n = run_abort(probe, Chooser())["events"]
+                for k in range(1, n + 2):
+                    case = {"verb": verb, "size": size, "k": k, "backend": backend, "followup": "again" if k % 2 else "pwd",
+                            "data_conn": True, "giveup": giveup}
+                    items.append((case, 1 if tier == "quick" else 2, kinds))
     # a restart offset before the transfer (executor backend: one more file operation between taking the data
     # connection and using it)
     for verb in ("RETR", "APPE"):
@@ -375,15 +403,13 @@ def run(tier, seed, t0):
               "backends": ["memory", "slow(0.125s completion latency)", "AsyncPathIO (every operation an executor job)"],
               "abort_positions": "k=0 (same segment as the verb) and after every network event k=1..N+1 counted from "
                                  "the transfer verb, with and without a data connection",
-              "followups": FOLLOWUPS + ["reuse: next transfer over a data connection made in advance, no new PASV"], "data_peer": ["reading", "connected but not reading (RETR/LIST/MLSD)"], "deviation_bound": 1 if tier == "quick" else 3, "send_window": "lock-step", "cases": len(items)}
+              "followups": FOLLOWUPS + ["reuse: next transfer over a data connection made in advance, no new PASV"], "data_peer": ["reading", "connected but not reading (RETR/LIST/MLSD)", "closes / resets its data connection right before ABOR"], "deviation_bound": 1 if tier == "quick" else 3, "send_window": "lock-step", "cases": len(items)}
     return report.finish(
         PID, tier, seed, "model_checking", part, t0,
         rule="case = (verb, size, abort position, backend, follow-up); every schedule with <= bound deviations from the "
              "verb on; all executions contain an ABOR so all are non-trivial; distinct by delivery-trace hash",
         bounds=bounds,
-        assumptions=["environment model SimLoop/SimNet",
-                     "an ABOR sent before the peer has received the 1xx mark may be handled before the transfer verb "
-                     "(226 first, then the transfer runs): accepted, the aioftp client never pipelines"])
+        assumptions=["environment model SimLoop/SimNet"])
 
 
 def replay(path):
